@@ -348,6 +348,8 @@ pub use crate::parser_state::{
     set_call_limit, set_error_detail, state, Atomicity, Lookahead, MatchDir, ParseResult,
     ParserState,
 };
+#[cfg(feature = "verif-hooks")]
+pub use crate::parser_state::verif;
 pub use crate::position::Position;
 pub use crate::span::{merge_spans, Lines, LinesSpan, Span};
 pub use crate::stack::Stack;
